@@ -276,3 +276,104 @@ fn c02_field_decoder_widths() {
     kani::cover!(data[1] == 0xFF);
     std::mem::forget((cur, r0, r1, r3, r_end));
 }
+
+// ---- decode_xref_stream with the cross-reference table's container replaced by a recorder ----------
+// `Xref::insert` (std BTreeMap) is what made the earlier harnesses unreachable; the entries lopdf
+// hands to it are recorded instead, so the field decoding, type dispatch, defaults and object-number
+// arithmetic of decode_xref_stream itself are decided.
+use std::sync::atomic::{AtomicU32, AtomicUsize, Ordering};
+static REC_N: AtomicUsize = AtomicUsize::new(0);
+static REC_ID: [AtomicU32; 4] = [AtomicU32::new(0), AtomicU32::new(0), AtomicU32::new(0), AtomicU32::new(0)];
+static REC_KIND: [AtomicU32; 4] = [AtomicU32::new(0), AtomicU32::new(0), AtomicU32::new(0), AtomicU32::new(0)];
+static REC_A: [AtomicU32; 4] = [AtomicU32::new(0), AtomicU32::new(0), AtomicU32::new(0), AtomicU32::new(0)];
+static REC_B: [AtomicU32; 4] = [AtomicU32::new(0), AtomicU32::new(0), AtomicU32::new(0), AtomicU32::new(0)];
+
+/// The cross-reference streams examined carry no Filter; decompression is outside these harnesses.
+fn stub_stream_decompress(_s: &mut Stream) -> Result<()> {
+    Ok(())
+}
+
+fn rec_xref_insert(_x: &mut Xref, id: u32, entry: XrefEntry) {
+    let n = REC_N.load(Ordering::Relaxed);
+    assert!(n < 4, "recorder full (harness bound)");
+    REC_ID[n].store(id, Ordering::Relaxed);
+    match entry {
+        XrefEntry::Normal { offset, generation } => {
+            REC_KIND[n].store(1, Ordering::Relaxed);
+            REC_A[n].store(offset, Ordering::Relaxed);
+            REC_B[n].store(generation as u32, Ordering::Relaxed);
+        }
+        XrefEntry::Compressed { container, index } => {
+            REC_KIND[n].store(2, Ordering::Relaxed);
+            REC_A[n].store(container, Ordering::Relaxed);
+            REC_B[n].store(index as u32, Ordering::Relaxed);
+        }
+        _ => REC_KIND[n].store(0, Ordering::Relaxed),
+    }
+    REC_N.store(n + 1, Ordering::Relaxed);
+}
+
+/// Concrete widths [W0 W1 W2] and one subsection [start 2] (start symbolic 0..=1000), all contents
+/// of exactly 2 entries: the entries handed to the table are those ISO 32000-1 7.5.8.3 defines.
+fn xrefstm_rec_harness<const W0: usize, const W1: usize, const W2: usize, const C: usize>() {
+    assert!(C == 2 * (W0 + W1 + W2));
+    let content: [u8; C] = kani::any();
+    let start: i64 = kani::any();
+    kani::assume(start >= 0 && start <= 1000);
+    let mut d = Dictionary::new();
+    d.set("Size", 2000i64);
+    d.set("W", int_array(&[W0 as i64, W1 as i64, W2 as i64]));
+    d.set("Index", int_array(&[start, 2]));
+    REC_N.store(0, Ordering::Relaxed);
+    let r = decode_xref_stream(Stream::new(d, content.to_vec()));
+    assert!(r.is_ok(), "well-formed cross-reference stream rejected");
+    // reference
+    let esz = W0 + W1 + W2;
+    let mut expected = 0usize;
+    let mut j = 0usize;
+    while j < 2 {
+        let pos = j * esz;
+        let t = if W0 == 0 { 1 } else { be(&content, pos, W0) };
+        let f2 = be(&content, pos + W0, W1);
+        let f3 = be(&content, pos + W0 + W1, W2);
+        if t == 1 || t == 2 {
+            let k = expected;
+            assert!(REC_N.load(Ordering::Relaxed) > k, "an in-use or compressed entry was not recorded");
+            assert!(REC_ID[k].load(Ordering::Relaxed) == (start as u32) + j as u32, "entry stored under the wrong object number");
+            assert!(REC_KIND[k].load(Ordering::Relaxed) == t, "entry type 1 = in use, 2 = compressed");
+            assert!(REC_A[k].load(Ordering::Relaxed) == f2, "second field (offset / stream number) decoded wrongly");
+            let want3 = if t == 1 && W2 == 0 { 0 } else { f3 & 0xFFFF };
+            assert!(REC_B[k].load(Ordering::Relaxed) == want3, "third field (generation / index) decoded wrongly");
+            expected += 1;
+        }
+        j += 1;
+    }
+    assert!(REC_N.load(Ordering::Relaxed) == expected, "free or unknown-type entries must not be recorded as objects");
+    kani::cover!(expected == 2);
+    kani::cover!(expected == 0);
+    std::mem::forget(r);
+}
+#[kani::proof]
+#[kani::unwind(5)]
+#[kani::stub(crate::xref::Xref::insert, rec_xref_insert)]
+#[kani::stub(crate::object::Stream::decompress, stub_stream_decompress)]
+#[kani::stub(std::string::String::from_utf8_lossy, crate::object::verif_kani::lossy_stub)]
+fn c02_xrefstm_rec_w121() {
+    xrefstm_rec_harness::<1, 2, 1, 8>();
+}
+#[kani::proof]
+#[kani::unwind(5)]
+#[kani::stub(crate::xref::Xref::insert, rec_xref_insert)]
+#[kani::stub(crate::object::Stream::decompress, stub_stream_decompress)]
+#[kani::stub(std::string::String::from_utf8_lossy, crate::object::verif_kani::lossy_stub)]
+fn c02_xrefstm_rec_w020() {
+    xrefstm_rec_harness::<0, 2, 0, 4>();
+}
+#[kani::proof]
+#[kani::unwind(5)]
+#[kani::stub(crate::xref::Xref::insert, rec_xref_insert)]
+#[kani::stub(crate::object::Stream::decompress, stub_stream_decompress)]
+#[kani::stub(std::string::String::from_utf8_lossy, crate::object::verif_kani::lossy_stub)]
+fn c02_xrefstm_rec_w132() {
+    xrefstm_rec_harness::<1, 3, 2, 12>();
+}
